@@ -71,11 +71,12 @@ func (b *backoff) next(attempt int) time.Duration {
 	durf := minf * math.Pow(1.5, float64(attempt))
 	durf = durf + rand.Float64()*minf
 
-	delay := time.Duration(durf)
-
-	if delay > b.maxDelay {
+	// Clamp before converting: durf grows exponentially with attempt and the
+	// result of converting a float64 beyond the int64 range is not defined (a
+	// large negative Duration on amd64, which made callers sleep for no time).
+	if durf > float64(b.maxDelay) {
 		return b.maxDelay
 	}
 
-	return delay
+	return time.Duration(durf)
 }
